@@ -198,7 +198,8 @@ pub fn c01_c02(c: &mut Ctx) {
             let he = m.map(|m| m.henter.clone()).unwrap_or_default();
             if he.len() != 1 {
                 if he.is_empty() {
-                    let text = format!("message {mid} was accepted by actor {a} ({:?} returned Ok at seq {ret_seq}) before stop/last-drop but never handled although the actor ended gracefully", o.tag);
+                    let how = if ok { format!("{:?} returned Ok at seq {ret_seq}", o.tag) } else { format!("{:?} invoked at seq {} found a free slot and was abandoned later (timeout / cancellation)", o.tag, o.inv_seq) };
+                    let text = format!("message {mid} was accepted by actor {a} ({how}) before stop/last-drop but never handled although the actor ended gracefully");
                     c.v("C01", "accepted-not-handled", ret_seq, text.clone());
                     c.v("C07", "accepted-work-not-finished", ret_seq, text.clone());
                     c.v("C02", "accepted-before-stop-not-handled", ret_seq, text);
